@@ -13,6 +13,8 @@ Ltac Zify.zify_post_hook ::= Z.div_mod_to_equations.
 
 (* ---------- small facts used by the tactics ---------- *)
 
+Definition bytes256_ : list N := map N.of_nat (seq 0 256).
+
 Lemma b2z_eqb0 c : (b2z c =? 0) = negb c.
 Proof. destruct c; reflexivity. Qed.
 
@@ -107,6 +109,30 @@ Proof.
   rewrite Z.land_spec, !Z.testbit_of_N' by assumption. apply N.land_spec.
 Qed.
 
+(* ---------- loops ---------- *)
+
+Lemma c_while_S {S R} f (step : S -> cres (lstep S R)) s :
+  c_while (Datatypes.S f) step s =
+  bind (step s) (fun r => match r with LNext s' => c_while f step s' | _ => COk r end).
+Proof. reflexivity. Qed.
+
+(* fuel >= k: peel k successors off the fuel *)
+Ltac peel_fuel f k :=
+  lazymatch k with
+  | O => idtac
+  | Datatypes.S ?k' => destruct f as [|f]; [exfalso; lia|]; peel_fuel f k'
+  end.
+
+(* the continuation bit of a byte, arithmetically (swept over the 256 bytes) *)
+Lemma zland_128 b : 0 <= b < 256 -> Z.land b 128 = b / 128 * 128.
+Proof.
+  intro H. assert (E : forallb (fun n => Z.land (Z.of_N n) 128 =? Z.of_N n / 128 * 128) bytes256_ = true)
+    by (vm_compute; reflexivity).
+  rewrite forallb_forall in E. specialize (E (Z.to_N b)).
+  rewrite Z2N.id in E by lia. apply Z.eqb_eq. apply E.
+  apply in_map_iff. exists (Z.to_nat b). split; [lia|]. apply in_seq. lia.
+Qed.
+
 (* ---------- the evaluation tactic ---------- *)
 
 Ltac c_unfold :=
@@ -173,6 +199,14 @@ Ltac byte_bounds :=
 
 (* Z.lor of disjoint fields -> +, innermost first (the side conditions of an
    outer lor are not provable by lia while an inner one is still there) *)
+Lemma zlor_add_mod0' a b k : 0 <= k -> 0 <= b -> b mod 2 ^ k = 0 -> 0 <= a < 2 ^ k -> Z.lor a b = a + b.
+Proof. intros. rewrite Z.lor_comm, Z.add_comm. apply zlor_add_mod0 with k; assumption. Qed.
+
+Ltac lor_try a b k :=
+  first [ rewrite (zlor_add_mod0 a b k) by lia | rewrite (zlor_add_mod0' a b k) by lia ].
+
+(* Z.lor of disjoint fields -> +, innermost first (the side conditions of an
+   outer lor are not provable by lia while an inner one is still there) *)
 Ltac lor_to_add :=
   repeat match goal with
   | |- context [Z.lor ?a ?b] =>
@@ -185,10 +219,29 @@ Ltac lor_to_add :=
             | rewrite (zlor_add_mod0 a b 56) by lia ]
   end.
 
+(* the same for 7-bit groups, either operand being the high part *)
+Ltac lor_to_add7 :=
+  repeat match goal with
+  | |- context [Z.lor ?a ?b] =>
+      first [ lor_try a b 7 | lor_try a b 14 | lor_try a b 21 | lor_try a b 28
+            | lor_try a b 35 | lor_try a b 42 | lor_try a b 49 | lor_try a b 56 | lor_try a b 63 ]
+  end.
+
 (* Z.of_N pushed to the leaves of + * mod ^ lor land (the hand models are written over N) *)
 Ltac n2z_push :=
-  repeat (progress (rewrite ?N2Z.inj_add, ?N2Z.inj_mul, ?N2Z.inj_mod, ?N2Z.inj_pow, ?N2Z_lor, ?N2Z_land));
+  repeat (progress (rewrite ?N2Z.inj_add, ?N2Z.inj_mul, ?N2Z.inj_mod, ?N2Z.inj_div, ?N2Z.inj_pow, ?N2Z_lor, ?N2Z_land));
   cbn [Z.of_N].
+
+(* closed arithmetic subterms (casts of literals, offsets) -> numerals *)
+Ltac closed_eval :=
+  repeat match goal with
+  | |- context [?a mod ?b] =>
+      tryif is_open (a mod b) then fail else (let v := eval vm_compute in (a mod b) in change (a mod b) with v)
+  | |- context [?a - ?b] =>
+      tryif is_open (a - b) then fail else (let v := eval vm_compute in (a - b) in change (a - b) with v)
+  | |- context [?a + ?b] =>
+      tryif is_open (a + b) then fail else (let v := eval vm_compute in (a + b) in change (a + b) with v)
+  end.
 
 (* Z.land with a mask 2^k - 1 -> mod *)
 Lemma zland_mask_l k m a : 0 <= k -> m = 2 ^ k - 1 -> Z.land m a = a mod 2 ^ k.
@@ -198,20 +251,13 @@ Proof. intros Hk ->. apply zland_ones_r. exact Hk. Qed.
 Ltac land_to_mod :=
   repeat match goal with
   | |- context [Z.land ?a ?b] =>
-      first [ rewrite (zland_mask_l 8 a b) by (try lia; reflexivity)
-            | rewrite (zland_mask_l 16 a b) by (try lia; reflexivity)
-            | rewrite (zland_mask_l 24 a b) by (try lia; reflexivity)
-            | rewrite (zland_mask_l 32 a b) by (try lia; reflexivity)
-            | rewrite (zland_mask_l 40 a b) by (try lia; reflexivity)
-            | rewrite (zland_mask_l 48 a b) by (try lia; reflexivity)
-            | rewrite (zland_mask_l 56 a b) by (try lia; reflexivity)
-            | rewrite (zland_mask_r 8 b a) by (try lia; reflexivity)
-            | rewrite (zland_mask_r 16 b a) by (try lia; reflexivity)
-            | rewrite (zland_mask_r 24 b a) by (try lia; reflexivity)
-            | rewrite (zland_mask_r 32 b a) by (try lia; reflexivity)
-            | rewrite (zland_mask_r 40 b a) by (try lia; reflexivity)
-            | rewrite (zland_mask_r 48 b a) by (try lia; reflexivity)
-            | rewrite (zland_mask_r 56 b a) by (try lia; reflexivity) ]
+      first
+        [ tryif is_open b then fail else
+            (let k := eval vm_compute in (Z.log2 (b + 1)) in
+             rewrite (zland_mask_r k b a) by (try lia; vm_compute; reflexivity))
+        | tryif is_open a then fail else
+            (let k := eval vm_compute in (Z.log2 (a + 1)) in
+             rewrite (zland_mask_l k a b) by (try lia; vm_compute; reflexivity)) ]
   end.
 
 (* ---------- decidable equality of results, for finite sweeps ---------- *)
